@@ -110,6 +110,23 @@ func (l *leaf) res(p []byte) (int, error) {
 	return len(p), nil
 }
 
+// tbLeaf stands for a testing.TB behind zerolog.TestWriter: it records what would be logged.
+type tbLeaf struct{ *leaf }
+
+func (l tbLeaf) Helper() {}
+func (l tbLeaf) Log(args ...interface{}) {
+	l.log = append(l.log, got{-100, fmt.Sprint(args...)})
+	l.calls++
+}
+func (l tbLeaf) Logf(format string, args ...interface{}) {
+	s := fmt.Sprintf(format, args...)
+	if i := strings.Index(s, ": "); i >= 0 { // "<erase>file.go:123: <line>": only the line is compared
+		s = s[i+2:]
+	}
+	l.log = append(l.log, got{-100, s})
+	l.calls++
+}
+
 // syslogLeaf is a syslog.Writer look-alike: one method per severity, plus Write.
 type syslogLeaf struct{ *leaf }
 
@@ -192,6 +209,15 @@ func build(ds []Dest, outcomes [][]int, leaves *[]*leaf, filters *[][]int, path 
 				} else {
 					ws = append(ws, zerolog.SyslogCEEWriter(syslogLeaf{lf}))
 				}
+			case "testwriter", "testwriter-frame":
+				// zerolog.TestWriter: the line goes to a testing.TB without its newline (t.Log adds one); it
+				// accepts everything and reports the whole input as written
+				lf.outcomes = nil
+				tw := zerolog.TestWriter{T: tbLeaf{lf}}
+				if d.Kind == "testwriter-frame" {
+					tw.Frame = 1
+				}
+				ws = append(ws, tw)
 			case "logger":
 				// another Logger as a destination (Logger is an io.Writer): it logs the line as the message
 				// of an event of its own and must report the whole input as written; its own destination
@@ -363,6 +389,8 @@ func run(c *Case) (msg string, nontrivial bool) {
 					}
 					want[li] = append(want[li], got{sl, prefix + line})
 				}
+			} else if lf.kind == "testwriter" || lf.kind == "testwriter-frame" {
+				want[li] = append(want[li], got{-100, strings.TrimRight(line, "\n")})
 			} else if lf.kind == "logger" {
 				want[li] = append(want[li], got{6, "{\"message\":" + strconv.Quote(strings.TrimSuffix(line, "\n")) + "}\n"})
 			} else {
@@ -509,7 +537,7 @@ func pow(b, e int) int {
 func genDests(rt *rapid.T, n, depth int, label string) []Dest {
 	var ds []Dest
 	for i := 0; i < n; i++ {
-		kinds := []string{"plain", "level", "filtered", "filtered", "sync-plain", "sync-level", "adapter", "logger", "syslog", "syslog-cee"}
+		kinds := []string{"plain", "level", "filtered", "filtered", "sync-plain", "sync-level", "adapter", "logger", "syslog", "syslog-cee", "testwriter", "testwriter-frame"}
 		if depth > 0 {
 			kinds = append(kinds, "multi")
 		}
